@@ -8,6 +8,8 @@ REPO = os.environ.get("VERIF_REPO", "/repo")
 OUT = os.environ.get("VERIF_OUT", VERIF)
 SCRATCH_ROOT = os.environ.get("VERIF_SCRATCH_ROOT", "/var/tmp/verif-scratch")
 NCPU = max(1, min(16, os.cpu_count() or 1))
+# the judge's own JSON reader / tree walks are recursive; the depth ladders go to 1000 levels (x 3 frames per level)
+sys.setrecursionlimit(max(sys.getrecursionlimit(), 30000))
 
 
 class Infra(Exception):
